@@ -159,6 +159,8 @@ def check_C16(c):
     c.model_check("MC_Checksums", "MC_Checksums.cfg", workers=4)
     c.scenario("checksums")
     c.scenario("checksums", features=["simd"])
+    c.scenario("adler_stream")
+    c.scenario("adler_stream", features=["simd"])
     return c.finish("model_checking",
                     "one case = one buffer (length family x content) with every split point (short) or random splits; each call (start value, data, result) is recomputed by TLC from the Adler-32 / CRC-32 definitions in spec/Checksums.tla; scalar and simd builds",
                     TRUST)
